@@ -580,6 +580,14 @@ func c18ScnExec(scn c18Scn, alloc bool, only int, root string) *c18ScnRun {
 				x.Probes = append(x.Probes, "not-applicable")
 				continue
 			}
+			if ok, why := x.srv.Contained(fr); !ok {
+				// containment (peers/guard.go): the change made a path of the request name something outside the
+				// scratch directories; the os-backed server would act on it for real
+				x.event("probe %s %s: not run (%s)", st.Ops[0].K, st.Mut.text(), "a path of the changed frame leaves the scratch directory")
+				_ = why
+				x.Probes = append(x.Probes, "not-run")
+				continue
+			}
 			if err := hSend(x.srv, x.k, fr); err != nil {
 				if err == peers.ErrTimeout {
 					return fault("input/send-blocked/"+srvName, "session %d: the server did not take in the frame of step %d (%d bytes, outer length %d)", x.idx, si, len(fr), len(fr)-4)
@@ -635,9 +643,13 @@ func c18ScnExec(scn c18Scn, alloc bool, only int, root string) *c18ScnRun {
 			}
 			if !x.dead && st.Mut != nil && len(st.Ops) == 1 {
 				if fr, ok := st.Mut.apply(st.Ops[0].K, frameOf(x, st.Ops[0])); ok {
-					x.event("last frame %s %s, then end of input", st.Ops[0].K, st.Mut.text())
-					if err := hSend(x.srv, x.k, fr); err != nil {
-						return fault("input/send-failed/"+srvName, "session %d, last frame: %v", x.idx, err)
+					if ok, _ := x.srv.Contained(fr); !ok {
+						x.event("last frame %s %s not sent (a path of it leaves the scratch directory), end of input", st.Ops[0].K, st.Mut.text()) // containment: see "probe"
+					} else {
+						x.event("last frame %s %s, then end of input", st.Ops[0].K, st.Mut.text())
+						if err := hSend(x.srv, x.k, fr); err != nil {
+							return fault("input/send-failed/"+srvName, "session %d, last frame: %v", x.idx, err)
+						}
 					}
 				}
 			}
@@ -831,6 +843,9 @@ func c18ScnSummarise(st c18Stream, scratch string) gSummary {
 	for _, x := range off.Sess {
 		for _, p := range x.Probes {
 			hist("changed-frame-outcome=" + srv + "/" + p)
+			if p == "not-run" {
+				hist(lib.NotRunBucket)
+			}
 		}
 		hist("session-ended-by=" + x.EndedBy)
 	}
